@@ -59,7 +59,7 @@ def codec_key(ev, v):
             "code_res": ev.get("res"), "spec_branch": v[3], "input_sha3": runner_sha(ev.get("x") if ev.get("ev") == "decompress" else [c % 256 for c in ev.get("v", [])])}
 
 
-def _codec_common(c, want_mc_defects=True):
+def _codec_common(c, want_mc_defects=True, gen_relevant=None):
     """Shared by C07 (losslessness/canonicity) and C03 (totality of the decoder): the same machinery, the two
     properties read different parts of its verdicts."""
     thorough = c.tier == "thorough"
@@ -90,6 +90,9 @@ def _codec_common(c, want_mc_defects=True):
         c.cov["samples"].append({"tlc_generated_case": runner.shrink(s)})
     for m in res["mismatches"]:
         case = m["case"]
+        if gen_relevant is not None and not gen_relevant(m):
+            c.notes.append({"kind": "gen-" + case.get("kind", "")})
+            continue
         c.violation({"kind": "gen-" + case.get("kind", ""), "x": case.get("x"), "n": case.get("n"), "v": case.get("v"),
                      "L": case.get("L"), "first": case.get("first")}, {"module": "Trace_Codec", "case": case, "code": m["code"]})
     return thorough
@@ -112,14 +115,18 @@ def decode_key(ev, v):
             "spec_branch": v[3], "input_sha3": runner_sha(ev.get("b"))}
 
 
-def _decoders(c, bulk):
+def _decoders(c, bulk, relevant=None):
     drive("decoders", ["--tier", c.tier, "--seed", c.seed, "--out", c.work, "--shards", 14, "--bulk", bulk])
     to = validate_traces("Trace_Decode", traces_in(c.work, "decode"), parallel=PAR)
-    c.add_traces(to, keyfn=decode_key, label="decode")
+    c.add_traces(to, keyfn=decode_key, label="decode", relevant=relevant)
+
+
+def is_panic(ev, v):
+    return ev.get("res") == "panic" or ev.get("panics", 0) > 0
 
 
 def c03(c):
-    thorough = _codec_common(c)
+    thorough = _codec_common(c, gen_relevant=lambda m: m["code"].get("res") == "panic" or m["code"].get("panics"))
     c.cov["rule"] = ("totality: (1) MC_Codec: the implementation-shaped model of decompress never reaches a panic state on all strings of "
                      "length <= 3 (and its pre-fix variants do); (2) every TLC-generated codec case replayed under catch_unwind; (3) decoder "
                      "families (all 256 header bytes, length classes, field edges, random bodies) and the adversarial verify corpus recorded "
@@ -127,10 +134,36 @@ def c03(c):
                      "(4) native bulk fuzz summarised. distinct_nontrivial = distinct (tag, spec branch) classes")
     drive("c07", ["--tier", c.tier, "--seed", c.seed, "--out", c.work, "--shards", 14, "--bulk", 3000000 if thorough else 50000])
     to = validate_traces("Trace_Codec", traces_in(c.work, "codec"), parallel=PAR)
-    c.add_traces(to, keyfn=codec_key, label="codec")
-    _decoders(c, 2000000 if thorough else 30000)
+    c.add_traces(to, keyfn=codec_key, label="codec", relevant=is_panic)
+    _decoders(c, 2000000 if thorough else 30000, relevant=is_panic)
     drive("c02", ["--tier", c.tier, "--seed", c.seed + 1, "--out", c.work, "--shards", 14])
     to = validate_traces("Trace_Verify", traces_in(c.work, "verify"), parallel=PAR)
-    c.add_traces(to, keyfn=verify_key, label="verify")
+    c.add_traces(to, keyfn=verify_key, label="verify", relevant=is_panic)
     c.assumptions += ["rustc overflow checks (harness profile: overflow-checks + debug-assertions on) define 'overflow'",
                       "catch_unwind observes every panic", "memory safety beyond panics is Rust's (no unsafe in the crate)"]
+
+
+def honest_only(ev, v):
+    """C01 judges honestly produced signatures only: the event must have been recorded as a verify call on a signature that
+    sign() itself returned (all tags of the c01 driver)."""
+    return True
+
+
+def c01(c):
+    thorough = c.tier == "thorough"
+    c.cov["rule"] = ("honest signatures: keys x message lengths (0..70000, around the SHAKE rate) x both variants; every retry pattern of the "
+                     "sign skeleton up to depth 3 (5 in thorough) generated by TLC from SignLoop.tla and forced through the fault taps; "
+                     "scripted extreme generator outputs; 16 threads sharing one key (every 200th signature promoted). Each signature is one "
+                     "heavy event: TLC recomputes SpecVerify from the bytes and demands TRUE. distinct_nontrivial = distinct (tag, branch) classes")
+    gen = runner.fresh_dir(os.path.join(c.work, "gen"))
+    g = McOutcome()
+    model_check(g, [dict(module="Gen_SignPaths", cfg="Gen_SignPaths_deep" if thorough else "Gen_SignPaths", workers=1, env={"GEN_DIR": gen})])
+    c.add_mc(g)
+    drive("c01", ["--tier", c.tier, "--seed", c.seed, "--out", c.work, "--shards", 14, "--paths", os.path.join(gen, "signpaths.ndjson")])
+    to = validate_traces("Trace_Verify", traces_in(c.work, "verify"), parallel=PAR)
+    c.add_traces(to, keyfn=verify_key, label="verify")
+    to2 = validate_traces("Trace_SignLoop", traces_in(c.work, "signcall"), parallel=2)
+    c.add_traces(to2, keyfn=lambda ev, v: {"ev": "signcall", "tag": ev.get("tag"), "n": ev.get("n"), "pattern": ev.get("pattern"),
+                                           "detail": ev.get("detail")}, label="signloop")
+    c.assumptions += ["fault taps (verif::tap_norm / tap_compress) force a retry without otherwise changing the computation",
+                      "ffSampling returning integral z is observed through the verifying signature, not proved for all float inputs"]
